@@ -66,17 +66,22 @@ def entry(fd, slot):
     return {'vals': rats(fd.elemental_data.get_attribute_data(slot)), 'opts': opts}
 
 
+def signed_of(make, slot):
+    out = []
+    n_modes = 3 if METHOD[slot][3] else 1
+    for m in range(n_modes):
+        r = call(make(), slot, {'mode': m, 'raise': False, 'abs': False})
+        if 'val' not in r:
+            raise RuntimeError('signed values: ' + json.dumps(r))
+        out.append(r['val'])
+    return out
+
+
 def run_case(case):
     slot = case['slot']
     mesh = case['mesh']
     bare = dict(mesh, elemental={k: v for k, v in mesh.get('elemental', {}).items() if k != slot})
-    signed = []
-    n_modes = 3 if METHOD[slot][3] else 1
-    for m in range(n_modes):
-        r = call(c19_impl.build(bare), slot, {'mode': m, 'raise': False, 'abs': False})
-        if 'val' not in r:
-            return {'error': 'signed values: ' + json.dumps(r)}
-        signed.append(r['val'])
+    signed = signed_of(lambda: c19_impl.build(bare), slot)
     fd = c19_impl.build(mesh)
     t0 = entry(fd, slot)
     steps = []
@@ -85,6 +90,16 @@ def run_case(case):
             with contextlib.redirect_stdout(io.StringIO()):
                 fd.remove_useless_nodes()
             steps.append({'drop': True, 'entry': entry(fd, slot)})
+        elif op == 'mod':
+            # connectivity assignment (first two nodes of every element swapped: orientation flips);
+            # the values the kernels compute afterwards come from fresh copies of the modified mesh
+            d = np.array(fd.elements.data).copy()
+            d[:, [0, 1]] = d[:, [1, 0]]
+            with contextlib.redirect_stdout(io.StringIO()):
+                fd.elements.data = d
+            user = {'nodal': [], 'elemental': []}
+            steps.append({'mod': True, 'entry': entry(fd, slot),
+                          'signed': signed_of(lambda: c19_impl.fresh_copy(fd, user), slot)})
         else:
             r = call(fd, slot, op)
             r['entry'] = entry(fd, slot)
